@@ -35,6 +35,13 @@ Verdict(t) ==
        ELSE IF \E i \in 1..Len(toks) : toks[i].k # "number" \/ ~IsPlainNumber(toks[i].v)
        THEN "skip:not-plain-number-text"
        ELSE IF t.err # "" THEN "violation:raised"
+       \* a context that holds the (single) literal several times: every copy arrives
+       ELSE IF "reps" \in DOMAIN t /\ t.reps > 1
+       THEN (IF Len(toks) # 1 THEN "skip:not-a-single-literal"
+             ELSE IF Len(t.vals) # t.reps THEN "violation:split"
+             ELSE IF \E i \in 1..t.reps : t.vals[i].ty \notin {"int", "rational"} THEN "violation:type"
+             ELSE IF \E i \in 1..t.reps : ~ValueOK(t.vals[i], toks[1].v) THEN "violation:value"
+             ELSE "ok")
        ELSE IF Len(t.vals) # Len(toks) THEN "violation:split"
        ELSE IF \E i \in 1..Len(toks) : t.vals[i].ty \notin {"int", "rational"} THEN "violation:type"
        ELSE IF \E i \in 1..Len(toks) : ~ValueOK(t.vals[i], toks[i].v) THEN "violation:value"
